@@ -269,7 +269,7 @@ func Select(hasDefault bool, cases ...SelCase) int {
 		return selectReal(hasDefault, cases)
 	}
 	if n > MaxSelect {
-		panic("simrt: select with too many cases")
+		panic(LimitExceeded("simrt: select with too many cases"))
 	}
 	s := cur
 	for {
